@@ -20,6 +20,20 @@ theorem Since.new {X : Ev → Prop} {B : Ev → Bool} (pre : List Ev) {e : Ev} (
     Since X B (pre ++ [e]) :=
   ⟨pre, e, [], by simp, hx, by simp⟩
 
+theorem Since.of_snoc {X : Ev → Prop} {B : Ev → Bool} {pre : List Ev} {e : Ev}
+    (h : Since X B (pre ++ [e])) : X e ∨ (Since X B pre ∧ B e = false) := by
+  obtain ⟨a, x, b, hab, hx, hB⟩ := h
+  rcases List.eq_nil_or_concat b with rfl | ⟨b', y, rfl⟩
+  · have : a ++ [x] = pre ++ [e] := by simpa using hab.symm
+    have h2 := List.append_inj' this rfl
+    simp at h2
+    exact Or.inl (h2.2 ▸ hx)
+  · have : (a ++ x :: b') ++ [y] = pre ++ [e] := by simpa using hab.symm
+    have h2 := List.append_inj' this rfl
+    simp at h2
+    obtain ⟨h3, rfl⟩ := h2
+    exact Or.inr ⟨⟨a, x, b', h3.symm, hx, fun e' he' => hB e' (by simp [he'])⟩, hB y (by simp)⟩
+
 theorem Since.mem {X : Ev → Prop} {B : Ev → Bool} {pre : List Ev} (h : Since X B pre) :
     ∃ x ∈ pre, X x := by
   obtain ⟨a, x, b, rfl, hx, _⟩ := h
@@ -58,6 +72,12 @@ def isSub (m : Nat) : Ev → Bool
   | _ => false
 def isRevS (m : Nat) : Ev → Bool
   | .revS m' => m' == m
+  | _ => false
+def isRevE (m : Nat) : Ev → Bool
+  | .revE m' => m' == m
+  | _ => false
+def isLeave (m : Nat) : Ev → Bool
+  | .leaveR m' => m' == m
   | _ => false
 /-- events that end an assignment epoch of `m`: an adoption or a subscription change -/
 def epochB (m : Nat) (e : Ev) : Bool := isAsg m e || isSub m e
